@@ -83,7 +83,22 @@ def run(tier):
         sk = pypi_skeleton(rnd2, q)
         sk.update(warm=0, alt=i)
         pj.append(dict(base, harness="VerifC05PyPIShared", params=sk))
-    return run_property("C05", tier, [Group("rpypi", pj), Group("rnpm", nj), Group("rmaven", mj)],
+    # PyPI, second-generation universes (cycles through the root, a second version of the root package, extras)
+    for i in range(60 if q else 1200):
+        sk = c08.skeleton2(rnd2, cyc=0.6)
+        sk["alt"] = i
+        pj.append(dict(base, harness="VerifC05PyPI2", params=sk))
+    for i in range(20 if q else 300):
+        sk = c08.skeleton2(rnd2, cyc=0.4)
+        sk.update(warm=0, alt=i)
+        pj.append(dict(base, harness="VerifC05PyPIShared2", params=sk))
+    # npm, second-generation universes
+    for i in range(40 if q else 600):
+        sk = c06.skeleton2(rnd2, alias_p=0.2 if i % 3 == 0 else 0.0)
+        sk["alt"] = i
+        nj.append(dict(base, harness="VerifC05Npm2", params=sk))
+    return run_property("C05", tier, [Group("rpypi", pj, files=["c05.go", "c05shared.go", "c08r.go", "c08r2.go"]), Group("rnpm", nj, files=["c06.go", "c06v2.go", "c05shared.go"]),
+                                      Group("rmaven", mj, files=["c07r.go", "c05shared.go"])],
                         required_covers=["one requirement filtered out by its marker", "some version matched", "resolved without a graph error",
                                          "resolved a graph with dependencies", "other root resolved in between",
                                          "one Resolve call checked against the shared-state discipline", "shared resolver warmed up by an earlier resolution"],
